@@ -40,7 +40,9 @@ func RepoRoot() string {
 // scratch work directory when a scratch copy is being tried, so that /verif/evidence only ever
 // describes runs against /repo.
 func outRoot() string {
-	if RepoRoot() != "/repo" {
+	// VERIF_SIDE marks a side run of the same check (e.g. the 32-bit build): its evidence and
+	// replay files stay in the work directory, the main run's evidence is the one kept
+	if RepoRoot() != "/repo" || os.Getenv("VERIF_SIDE") != "" {
 		if w := os.Getenv("VERIF_WORK"); w != "" {
 			return w
 		}
@@ -252,6 +254,9 @@ func (r *Run) Violation(key, what string, cs any) {
 	}
 	v := &violation{Key: key, What: what, Count: 1, FirstObs: cs}
 	dir := filepath.Join(outRoot(), "replay", r.ID)
+	if side := os.Getenv("VERIF_SIDE"); side != "" && RepoRoot() == "/repo" {
+		dir = filepath.Join(VerifRoot, "replay", r.ID+".side"+side) // outlives the work directory
+	}
 	os.MkdirAll(dir, 0o755)
 	name := key
 	if len(name) > 120 {
